@@ -11,24 +11,27 @@ import cbgen
 CT = cbgen.CTYPE
 
 
-def wrapper_name(owner_kind, owner, tr, m, cont, ctx, clash_obj_names, cfg, group_clash=False):
-    """name per cglue-bindgen/src/types.rs create_wrappers_c; owner_kind: 'obj' | 'group'"""
+def wrapper_names(owner_kind, owner, tr, m, cont, ctx, clash_obj_names, cfg, group_clash=False):
+    """candidate names per cglue-bindgen/src/types.rs create_wrappers_c; owner_kind: 'obj' | 'group'.
+    Entries whose signature differs from type to type (by-value receiver) carry a container/context prefix;
+    for a container-typed result the module documentation promises the same, the generator may also offer
+    the generic name - either is accepted as long as its signature fits this instantiation."""
     cfgm = cfg.get("default_container") == cont and cfg.get("default_context") == ("Arc" if ctx == "Arc" else "")
     if owner_kind == "obj":
         typ = tr if (m["name"] == "drop" or m["name"] in clash_obj_names) else None
     else:
         # functions that several traits of the group define are (also) offered under a trait-qualified name
         typ = owner + "_" + tr if group_clash else owner
-    consuming = m["recv"] == "own"
-    if consuming:
-        ctxp = "" if (ctx == "none" or cfgm) else "arc_"
-        contp = "" if cfgm else cont.lower() + "_"
-        pre = ((typ.lower() + "_") if typ else "") + ctxp + contp
-    else:
-        pre = (typ.lower() + "_") if typ else ""
-    if cfg.get("function_prefix"):
-        pre = cfg["function_prefix"] + "_" + pre
-    return pre + m["name"]
+    ctxp = "" if (ctx == "none" or cfgm) else "arc_"
+    contp = "" if cfgm else cont.lower() + "_"
+    typed = ((typ.lower() + "_") if typ else "") + ctxp + contp
+    generic = (typ.lower() + "_") if typ else ""
+    fp = (cfg["function_prefix"] + "_") if cfg.get("function_prefix") else ""
+    if m["recv"] == "own":
+        return [fp + typed + m["name"]]
+    if m.get("ret") == "cont":
+        return [fp + typed + m["name"], fp + generic + m["name"]]
+    return [fp + generic + m["name"]]
 
 
 def gen(model, header_text):
@@ -48,7 +51,8 @@ def gen(model, header_text):
         defined[mm.group(2)] = {"ret": mm.group(1).strip().replace(" ", ""), "params": ptypes}
     c = []
     c.append('#include <stdio.h>\n#include <string.h>\n#include "processed.h"\n')
-    c.append("static unsigned char SBUF[8] = {1,2,3,4,5,6,7,8};\nstatic int INST; static int CTXV;\n")
+    c.append("static unsigned char SBUF[8] = {1,2,3,4,5,6,7,8};\nstatic int INST; static int INST2; static int CTXV; static int CBX;\n")
+    c.append("static bool mock_cb_Pt(void *c, struct Pt v) { (void)c; (void)v; return true; }\nstatic bool mock_cb_u64(void *c, uint64_t v) { (void)c; (void)v; return true; }\n")
     c.append('static void ev(const char *s) { fputs(s, stdout); fputc(10, stdout); }\n')
     c.append('static void mock_box_drop(void *p) { printf("{\\"ev\\":\\"box_drop\\",\\"ok\\":%d}\\n", p == (void *)&INST); }\n')
     c.append('static const void *mock_arc_clone(const void *p) { printf("{\\"ev\\":\\"ctx_clone\\",\\"ok\\":%d}\\n", p == (const void *)&CTXV); return p; }\n')
@@ -71,7 +75,7 @@ def gen(model, header_text):
                 fn = "mock_%d_%s_%s" % (ti, tr, m["name"])
                 recv = {"ref": "const struct %s *cont" % cname, "mut": "struct %s *cont" % cname, "own": "struct %s cont" % cname}[m["recv"]]
                 args = "".join(", %s a%d" % (CT[t], i) for i, t in enumerate(m["args"]))
-                ret = CT[m["ret"]]
+                ret = ("struct %s" % cname) if m["ret"] == "cont" else CT[m["ret"]]
                 body = []
                 if m["recv"] == "own":
                     body.append('    int cont_ok = (cont.instance%s == (void *)&INST);' % (".instance" if cont == "Box" else ""))
@@ -89,6 +93,8 @@ def gen(model, header_text):
                         fmt.append("[%d,%llu]"); vals.append("(int)(a%d.data - SBUF), (unsigned long long)a%d.len" % (i, i))
                     elif t == "ptr":
                         fmt.append("%d"); vals.append("(int)(a%d - SBUF)" % i)
+                    elif t in cbgen.CB_ELEM:
+                        fmt.append("[%d,%d]"); vals.append("(int)(a%d.context == (void *)&CBX), (int)(a%d.func == mock_cb_%s)" % (i, i, cbgen.CB_ELEM[t][0]))
                 body.append('    printf("{\\"ev\\":\\"slot\\",\\"ty\\":%d,\\"tr\\":\\"%s\\",\\"m\\":\\"%s\\",\\"cont_ok\\":%%d,\\"args\\":[%s]}\\n", cont_ok%s);'
                             % (ti, tr, m["name"], ",".join(fmt), ("," + ",".join(vals)) if vals else ""))
                 if m["recv"] == "own":
@@ -98,9 +104,13 @@ def gen(model, header_text):
                     if ctx == "Arc":
                         body.append("    if (cont.context.drop_fn) cont.context.drop_fn(cont.context.instance);")
                 uid = ti * 100 + len(rvals)
-                rvals[(ti, tr, m["name"])] = {"void": [], "u64": [7000 + uid], "i32": [300 + uid], "Pt": [11 + uid, 1000 + uid, 5]}[m["ret"]]
+                rvals[(ti, tr, m["name"])] = {"void": [], "u64": [7000 + uid], "i32": [300 + uid], "Pt": [11 + uid, 1000 + uid, 5], "cont": [1, 1, 1]}[m["ret"]]
+                # a container-returning entry (Clone-like) hands back a new container: other instance, same context, nothing to release
+                newc = "    { struct %s r = *cont; r.instance%s = &INST2;%s%s return r; }" % (
+                    cname, ".instance" if cont == "Box" else "", " r.instance.drop_fn = 0;" if cont == "Box" else "",
+                    " r.context.clone_fn = 0; r.context.drop_fn = 0;" if ctx == "Arc" else "")
                 rv = {"void": "", "u64": "    return %dULL;" % (7000 + uid), "i32": "    return %d;" % (300 + uid),
-                      "Pt": "    { struct Pt r; r.x = %d; r.y = %d; r.z = %d; return r; }" % (11 + uid, 1000 + uid, 5)}[m["ret"]]
+                      "Pt": "    { struct Pt r; r.x = %d; r.y = %d; r.z = %d; return r; }" % (11 + uid, 1000 + uid, 5), "cont": newc}[m["ret"]]
                 c.append("static %s %s(%s%s) {\n%s\n%s\n}\n" % (ret, fn, recv, args, "\n".join(body), rv))
         for tr in trs:
             cs = cname
@@ -125,15 +135,19 @@ def gen(model, header_text):
             if m["recv"] == "own" and cont != "Box" and not m.get("is_drop"):
                 continue
             gclash = kind == "group" and not m.get("is_drop") and sum(1 for t2 in trs if m["name"] in [x["name"] for x in traits[t2]["methods"]]) > 1
-            name = wrapper_name(kind, owner, tr, m, cont, ctx, clash, cfg, gclash)
+            names = wrapper_names(kind, owner, tr, m, cont, ctx, clash, cfg, gclash)
+            want = [CT[t].replace(" ", "") for t in m["args"]]
+
+            def sig_ok(nm):
+                return nm in defined and defined[nm]["params"] == want and (m["ret"] != "cont" or defined[nm]["ret"] == ("struct" + tname))
+            name = next((nm for nm in names if sig_ok(nm)), next((nm for nm in names if nm in defined), names[0]))
             rec = {"ty": ti, "owner_kind": kind, "owner": owner, "tr": tr, "m": m["name"], "wrapper": name, "cont": cont, "ctx": ctx,
                    "kind": "drop" if m.get("is_drop") else ("consuming" if m["recv"] == "own" else "plain"), "present": name in defined,
                    "args": m["args"], "ret": m["ret"]}
             if rec["present"]:
-                want = [CT[t].replace(" ", "") for t in m["args"]]
-                rec["signature_ok"] = defined[name]["params"] == want
+                rec["signature_ok"] = sig_ok(name)
                 if not rec["signature_ok"]:
-                    rec["found_signature"] = defined[name]["params"]
+                    rec["found_signature"] = defined[name]["params"] + ["-> " + defined[name]["ret"]]
             expected.append(rec)
             k = len(expected) - 1
             if not rec["present"] or not rec["signature_ok"]:
@@ -150,6 +164,8 @@ def gen(model, header_text):
                     argv.append("(struct CSliceRef_u8){SBUF + %d, %d}" % (i + 1, 4)); sent.append([i + 1, 4])
                 elif t == "ptr":
                     argv.append("SBUF + %d" % (i + 2)); sent.append(i + 2)
+                elif t in cbgen.CB_ELEM:
+                    argv.append("(OpaqueCallback_%s){&CBX, mock_cb_%s}" % (cbgen.CB_ELEM[t][0], cbgen.CB_ELEM[t][0])); sent.append([1, 1])
             rec["sent"] = sent
             rec["expret"] = rvals.get((ti, tr, m["name"]), [])
             selfarg = "o" if m["recv"] == "own" else "&o"
@@ -158,6 +174,11 @@ def gen(model, header_text):
             if m["ret"] == "void":
                 blk.append("    %s;" % call)
                 blk.append('    printf("{\\"ev\\":\\"ret\\",\\"k\\":%d,\\"val\\":[]}\\n");' % k)
+            elif m["ret"] == "cont":
+                vt_ok = "r.vtbl == o.vtbl" if kind == "obj" else " && ".join("r.vtbl_%s == o.vtbl_%s" % (t.lower(), t.lower()) for t in trs)
+                blk.append("    struct %s r = %s;" % (tname, call))
+                blk.append('    printf("{\\"ev\\":\\"ret\\",\\"k\\":%d,\\"val\\":[%%d,%%d,%%d]}\\n", (int)(%s), (int)(r.container.instance%s == (void *)&INST2), (int)(%s));' % (
+                    k, vt_ok, ".instance" if cont == "Box" else "", "r.container.context.instance == (const void *)&CTXV" if ctx == "Arc" else "1"))
             elif m["ret"] == "Pt":
                 blk.append("    struct Pt r = %s;" % call)
                 blk.append('    printf("{\\"ev\\":\\"ret\\",\\"k\\":%d,\\"val\\":[%%d,%%lld,%%d]}\\n", r.x, (long long)r.y, (int)r.z);' % k)
